@@ -869,7 +869,7 @@ class AckMonitor(Monitor):
             return
         for ob in self.obligations:
             if not ob["met"] and ob["ep"] == ep.name and t > ob["deadline"] + 0.05:
-                if ep.terminated or ep.conn._state.name != "CONNECTED" or ep.conn._close_pending:
+                if ep.terminated or ep.conn._state.name != "CONNECTED" or ep.conn._close_pending or ob.get("budget_gone"):
                     ob["met"] = True
                     self.exempt += 1
                     continue
